@@ -30,7 +30,12 @@ RULE = ("pairs of document streams of lengths 1..4 (documents: empty/null docume
         "contributes no pairwise step, so state, number (1 / max length / length of the left stream), order and content of the "
         "output must equal the model's on the file list without the zero-document files (MATRIX_MERGE with a zero-document "
         "FIRST file is run for crashes only: the statement does not say which stream is the left one then; file lists "
-        "without any document are not run).  distinct_nontrivial = cases with status 0 in which at least one pairwise merge changed a document.")
+        "without any document are not run).  Streams with Anchors merged at or below the root: yaml-merge main() on 2..3 real files of 1..3 "
+        "documents whose values are scalars, scalar Anchor definitions and Aliases (three names, so that documents of one run "
+        "share names), x 3 modes x --mergeat in {/, /base, /base/sub, /apps/web} x 4 Anchor policies x arrays all|unique; the "
+        "outcome (refusal or the written documents: data and the (name, value) of every Anchor definition) must be that of the "
+        "mode's chain of pairwise merges, each step run by a Merger and MergerConfig of its own that have merged nothing before.  "
+        "distinct_nontrivial = cases with status 0 in which at least one pairwise merge changed a document.")
 
 MODES = ["condense_all", "merge_across", "matrix_merge"]
 
@@ -303,6 +308,186 @@ def empty_file_cases(rng, reps):
     return cases
 
 
+# --------------------------------------------------------------------------- streams with Anchors, merged below the root
+
+A_NAMES = ["port", "host", "port_1"]
+A_VALUES = ["8080", "9090", "web", "true", "1.5"]
+A_KEYS = ["blue", "green", "name", "probe", "listen", "k1"]
+
+
+def anchored_doc(rng, shape=None):
+    """YAML text of a small Hash (or Array) document whose values are plain scalars, scalar Anchor definitions (&port 8080)
+    and Aliases (*port) of names from a pool of three, nested one level for a part."""
+    defined = []
+
+    def slot():
+        x = rng.random()
+        if x < 0.45:
+            n = rng.choice(A_NAMES)
+            if n not in defined:
+                defined.append(n)
+                return "&%s %s" % (n, rng.choice(A_VALUES))
+        if x < 0.75 and defined:
+            return "*%s" % rng.choice(defined)
+        return rng.choice(A_VALUES + ["7"])
+    shape = shape or rng.choice(["map", "map", "map", "nest", "nest", "seq"])
+    keys = rng.sample(A_KEYS, rng.randint(1, 3))
+    if shape == "map":
+        return "".join("%s: %s\n" % (k, slot()) for k in keys)
+    if shape == "nest":
+        out = ""
+        for k in keys:
+            if rng.random() < 0.6:
+                out += "%s:\n" % k + "".join("  %s: %s\n" % (k2, slot()) for k2 in rng.sample(A_KEYS, rng.randint(1, 2)))
+            else:
+                out += "%s: %s\n" % (k, slot())
+        return out
+    return "".join("- %s\n" % slot() for _ in keys)
+
+
+def anchored_case(rng, i):
+    """A run of yaml-merge over 2..3 files (streams of 1..3 documents with Anchors) with --mergeat at or below the root, an
+    Anchor policy, a multi-document mode and an Array policy."""
+    mode = MODES[i % 3]
+    mergeat = rng.choice(["/", "/base", "/base", "/base/sub", "/apps/web"])
+    left0 = "base:\n  name: app\n" + ("  sub:\n    k0: 0\n" if rng.random() < 0.5 else "") + \
+        ("apps:\n  web:\n    k0: 0\n" if mergeat == "/apps/web" or rng.random() < 0.3 else "") + anchored_doc(rng, rng.choice(["map", "nest"]))
+    nfiles = rng.choice([2, 2, 3])
+    files = []
+    for f in range(nfiles):
+        n = rng.randint(1, 3)
+        docs = []
+        for d in range(n):
+            if f == 0:
+                docs.append(left0 if d == 0 or mode != "condense_all" else anchored_doc(rng, rng.choice(["map", "nest"])))
+            else:
+                docs.append(anchored_doc(rng, rng.choice(["map", "map", "nest"])))
+        files.append(docs)
+    return {"how": "anchored", "mode": mode, "mergeat": mergeat, "anchors": rng.choice(["stop", "left", "right", "rename", "rename"]),
+            "arrays": rng.choice(["all", "unique"]), "texts": files}
+
+
+def _doc_view(data):
+    """What the property compares of one output document: its data, and the (name, value) of every Anchor definition."""
+    from harness.props import c10
+    return [c10.plain_json(data), sorted((n, json.dumps(c10.vj(nd), sort_keys=True)) for n, nd, _i in c10.anchored_nodes(data))]
+
+
+def pairwise_chain(case, log):
+    """The mode's definition spelled out as a chain of independent pairwise merges: every step is
+    Merger(left, fresh MergerConfig).merge_with(right) on a Merger that has merged nothing before.
+    -> ("refused", step) | ("ok", [document views])."""
+    from copy import deepcopy
+    from types import SimpleNamespace
+    from yamlpath.common import Parsers
+    from yamlpath.merger import Merger, MergerConfig
+    from yamlpath.merger.exceptions import MergeException
+    from yamlpath.exceptions import YAMLPathException
+
+    def loadall(texts):
+        return [Parsers.get_yaml_editor().load(t) for t in texts]
+
+    def step(l, r):
+        mc = MergerConfig(log, SimpleNamespace(mergeat=case["mergeat"], anchors=case["anchors"], arrays=case["arrays"],
+                                               multi_doc_mode=case["mode"]))
+        m = Merger(log, l, mc)
+        m.merge_with(r)
+        return m.data
+    mode = case["mode"]
+    cur = loadall(case["texts"][0])
+    try:
+        for ftexts in case["texts"][1:]:
+            R = loadall(ftexts)
+            if mode == "condense_all":
+                acc = cur[0]
+                for d in cur[1:] + R:
+                    acc = step(acc, d)
+                cur = [acc]
+            elif mode == "merge_across":
+                for k, d in enumerate(R):
+                    if k < len(cur):
+                        cur[k] = step(cur[k], d)
+                    else:
+                        cur.append(d)
+            else:
+                for k in range(len(cur)):
+                    for d in R:
+                        cur[k] = step(cur[k], deepcopy(d))
+        if mode == "condense_all" and len(cur) > 1:
+            acc = cur[0]
+            for d in cur[1:]:
+                acc = step(acc, d)
+            cur = [acc]
+    except (MergeException, YAMLPathException) as e:
+        return ("refused", type(e).__name__)
+    out = []
+    for d in cur:
+        y = Parsers.get_yaml_editor()
+        m = Merger(log, d, MergerConfig(log, SimpleNamespace()))
+        m.prepare_for_dump(y, "")
+        buf = io.StringIO()
+        y.dump(m.data, buf)
+        out.append(_doc_view(Parsers.get_yaml_editor().load(buf.getvalue())))
+    return ("ok", out)
+
+
+def run_anchored(case):
+    """-> (verdicts [(kind, sig, what)], nontrivial?)."""
+    import warnings
+    from harness.props import cli_common as cc
+    from yamlpath.common import Parsers
+    log = core.quiet_logger()
+    d = mg._tmpdir()
+    paths = []
+    for i, docs in enumerate(case["texts"]):
+        p = os.path.join(d, "a%d-%d.yaml" % (os.getpid(), i))
+        with open(p, "w", encoding="utf-8") as fh:
+            fh.write("".join("---\n" + t for t in docs))
+        paths.append(p)
+    argv = ["--nostdin", "-D", "yaml", "-M", case["mode"], "-m", case["mergeat"], "-a", case["anchors"], "-A", case["arrays"]] + paths
+    desc = "yaml-merge %s on the files %s" % (" ".join(argv[1:-len(paths)]), json.dumps(case["texts"]))
+    old = signal.signal(signal.SIGVTALRM, _alarm)
+    signal.setitimer(signal.ITIMER_VIRTUAL, 20.0)
+    try:
+        with warnings.catch_warnings():
+            warnings.simplefilter("ignore")
+            want = pairwise_chain(case, log)
+    except Timeout:
+        return [("violation", "timeout", desc + ": the pairwise chain did not finish")], False
+    except Exception as e:  # noqa: a crash of a single pairwise merge is C05's/C10's/C11's to report
+        return [], False
+    finally:
+        signal.setitimer(signal.ITIMER_VIRTUAL, 0)
+        signal.signal(signal.SIGVTALRM, old)
+    res = cc.run_inproc("merge", argv)
+    if res.get("timeout"):
+        return [("violation", "timeout", desc + " did not finish")], False
+    if "crash" in res:
+        return [("violation", "%s@%s" % (res["crash"], res.get("site", "?")), desc + " let %s escape" % res["crash"])], False
+    if want[0] == "refused":
+        if res["rc"] == 0:
+            return [("violation", "anchored:%s:accepted:anchors=%s" % (case["mode"], case["anchors"]),
+                     "%s exits 0 and writes %r; a pairwise step of the mode (each a merge by a Merger of its own) is refused (%s)" % (
+                         desc, res["out"], want[1]))], False
+        return [], False
+    if res["rc"] != 0:
+        return [("violation", "anchored:%s:refused:anchors=%s" % (case["mode"], case["anchors"]),
+                 "%s exits %d; every pairwise step of the mode (each a merge by a Merger of its own) is defined" % (desc, res["rc"]))], False
+    try:
+        with warnings.catch_warnings():
+            warnings.simplefilter("ignore")
+            got = [_doc_view(x) for x in Parsers.get_yaml_editor().load_all(res["out"])]
+    except Exception as e:  # noqa
+        return [("violation", "anchored:%s:output-does-not-load" % case["mode"], "%s wrote %r, which does not load (%s)" % (
+            desc, res["out"], type(e).__name__))], False
+    if got != want[1]:
+        what = "docs" if [g[0] for g in got] != [w[0] for w in want[1]] else "anchors"
+        return [("violation", "anchored:%s:%s:anchors=%s" % (case["mode"], what, case["anchors"]),
+                 "%s wrote %r: documents/Anchors %s; the chain of pairwise merges (each by a Merger of its own) gives %s" % (
+                     desc, res["out"], json.dumps(got), json.dumps(want[1])))], True
+    return [], True
+
+
 def expected_count(mode, nl, nr):
     return 1 if mode == "condense_all" else (max(nl, nr) if mode == "merge_across" else nl)
 
@@ -480,6 +665,20 @@ def _job(job):
         return run_cases(cases)
     if tag == "EMPTY":
         return run_cases(empty_file_cases(random.Random(job[1]), job[2]))
+    if tag == "ANCH":
+        rng = random.Random(job[1])
+        stats, findings, hist, nontrivial = {"n": 0, "oom": 0}, [], {}, 0
+        for i in range(job[2]):
+            c = anchored_case(rng, i)
+            v, nt = run_anchored(c)
+            stats["n"] += 1
+            nontrivial += 1 if nt else 0
+            k = "anchored:%s:mergeat=%s" % (c["mode"], "root" if c["mergeat"] == "/" else "below-root")
+            hist[k] = hist.get(k, 0) + 1
+            for kind_, sig, what in v:
+                if len(findings) < 40:
+                    findings.append((kind_, sig, what, c))
+        return stats, findings, [], nontrivial, hist
     return run_cases(job[1])
 
 
@@ -505,6 +704,13 @@ def run(chk: core.Check):
         if "mode" not in c:
             print("replay: nothing to run for", json.dumps(c)[:300])
             return chk
+        if c.get("how") == "anchored":
+            v, _nt = run_anchored(c)
+            for kind_, sig, what in v:
+                print("replay:", sig, "::", what[:800])
+                chk.violation(sig, what, c)
+            chk.evaluations += 1
+            return chk
         case = {"mode": c["mode"], "lhs": c["lhs"], "rhs": c["rhs"], "cfg": c.get("cfg", {}), "how": c.get("how", "mem"), "files": c.get("files", []),
                 "texts": c.get("texts")}
         results = [run_cases([case])]
@@ -523,6 +729,9 @@ def run(chk: core.Check):
         jobs += [("RAND", chk.seed * 7919 + i, per, p_file, p_main) for i in range(n // per)]
         n_empty = 4 if tier == "quick" else 12
         jobs += [("EMPTY", chk.seed * 104729 + 17 + i, 2) for i in range(n_empty)]
+        n_anch = 1800 if tier == "quick" else 18000
+        jobs += [("ANCH", chk.seed * 15485863 + 5 + i, 60) for i in range(n_anch // 60)]
+        chk.extra_cov["anchored_below_root_runs"] = n_anch
         chk.extra_cov["zero_document_file_runs"] = n_empty * 2 * 3 * (2 + 6 + 14)
         chk.extra_cov["stream_pairs"] = n
         chk.extra_cov["coverage_note"] = "every (|L|,|R|) in 1..4 x 1..4 and every mode occurs in each block of 48 consecutive cases"
